@@ -6,6 +6,9 @@ package main
 
 import (
 	"fmt"
+	"os"
+	"os/exec"
+	"path/filepath"
 	"strings"
 )
 
@@ -229,8 +232,246 @@ func c16Gen(g *G) {
 	}
 	// bad_msg_notification for a pending request: its caller gets the error, a later probe completes
 	g.Emit("c16.run o,o g0;w1;B0;j;g1;w2;a1", "badmsg-for-pending")
+	c16GenPlain(g)
+	c16GenLostWrites(g)
+}
+
+// c16GenPlain: PLAIN-TEXT frames (auth_key_id 0, msg_id, length, body — the envelope of the key exchange, which
+// anybody on the path can write: no key is needed) arriving on a session that already works under its auth key.
+// Plan step ~<item>: every kind of message the client acts on — new_session_created and bad_server_salt with a
+// salt of their own, an rpc_result / rpc_error / bad_msg_notification naming a pending request (with a value the
+// server's script never sends, and with exactly the value it will send), an update, service traffic, unknown and
+// truncated bodies, containers of these, nested and gzip_packed — alone, between ordinary messages, with calls
+// pending, straight after a reconnect, damaged (~~ client-parity msg_id, ~+ wrong length); then the pending calls
+// are answered by the server and a probe must complete. The oracle (rsJudgeTrace, verdict "plain"): no caller
+// returns what a plain frame carried, no salt of a plain frame is stored or used, no request is repeated because
+// of one, the application's handler (registered by the harness, event H) is not shown its content, nothing in it
+// is acknowledged; one warning per frame.
+func c16GenPlain(g *G) {
+	r := g.R
+	tag := "plain-frame-to-keyed-client"
+	salt := func() string { return fmt.Sprintf("%d", 66000+r.Intn(30000)) }
+	for _, it := range []string{"n" + salt(), "u", "x", "p", "k", "e", "t", "b", "q12345", "Mpi", "Msr1", "0", "z(u)", "N2(n" + salt() + ")",
+		"N6(u)", "c(u,n" + salt() + ",p)", "kb"} {
+		g.Emit("c16.run o,o ~"+it+";g1;w1;a1", tag)
+	}
+	for _, it := range []string{"r0/" + salt(), "F0", "a0", "az", "E0", "B0", "T0", "c(F0)", "c(n" + salt() + ",u,F0)", "c(r0/" + salt() + ",B0)", "z(F0)", "N3(F0)",
+		"c(p,N1(c(u,F0)))"} {
+		if it == "az" {
+			it = "a0z"
+		}
+		g.Emit("c16.run o,o g0;w1;~"+it+";a0;j;g1;w2;a1", tag)
+	}
+	// damaged plain frames (refused by the envelope layer in any state), a plain frame as the first thing after a
+	// reconnect, between a genuine salt rotation and the repeated request, while the probe is pending, many in a row
+	g.Emit("c16.run o,o g0;w1;~~F0;~+F0;~~n"+salt()+";~+u;a0;j;g1;w2;a1", tag)
+	g.Emit("c16.run o,o g0;w1;close;~n"+salt()+";~F0;a0;j;~u;g1;w2;a1", tag)
+	g.Emit("c16.run o,o g0;w1;a0;j;X;~n"+salt()+";~u;g1;w2;~F1;a1", tag)
+	g.Emit("c16.run o,o g0;w1;r0/2000;w2;~r0/"+salt()+";~n"+salt()+";a0;j;g1;w3;a1", tag)
+	g.Emit("c16.run o,o u;W;~rk0/"+salt()+";~Bk0;g1;w1;~F1;~B1;~r1/"+salt()+";a1", tag)
+	g.Emit("c16.run o,o,o g0+1;w2;~c(F0,F1);~F1;~F0;u;~u;a1;n77;a0;j;g2;w3;c(p,a2)", tag)
+	{
+		var many []string
+		for j := 0; j < 40; j++ {
+			many = append(many, "~"+[]string{"F0", "u", "n" + salt(), "r0/" + salt(), "B0", "x"}[j%6])
+		}
+		g.Emit("c16.run o,o g0;w1;"+strings.Join(many, ";")+";a0;j;g1;w2;a1", tag)
+	}
+	n := g.N(30, 800)
+	for i := 0; i < n; i++ {
+		var plan []string
+		if r.Intn(5) == 0 {
+			plan = append(plan, "P1")
+		}
+		pend := r.Intn(3) // callers 0..pend-1 have a call pending while the frames arrive; caller 2 is the probe
+		reqs := pend
+		switch pend {
+		case 1:
+			plan = append(plan, "g0", "w1")
+		case 2:
+			plan = append(plan, "g0+1", "w2")
+		}
+		one := func() string {
+			pool := []string{"n" + salt(), "u", "x", "p", "k", "e", "t", "b", "q12345", "tr12", "Mrr1", "Mfs1", "zt"}
+			for c := 0; c < pend; c++ {
+				pool = append(pool, fmt.Sprintf("r%d/%s", c, salt()), fmt.Sprintf("F%d", c), fmt.Sprintf("F%d", c), fmt.Sprintf("a%d", c),
+					fmt.Sprintf("E%d", c), fmt.Sprintf("B%d", c), fmt.Sprintf("U%d", c))
+			}
+			return pool[r.Intn(len(pool))]
+		}
+		for j, m := 0, 1+r.Intn(5); j < m; j++ {
+			switch r.Intn(10) {
+			case 0, 1: // an ordinary message of the server in between
+				plan = append(plan, []string{"u", "x", "p", "n77", "q12345", "c(u,p)", "b"}[r.Intn(7)])
+			case 2:
+				if r.Intn(3) == 0 {
+					plan = append(plan, "close")
+				} else {
+					plan = append(plan, "~~"+one(), "~+"+one())
+				}
+			case 3: // a container of several
+				var in []string
+				for q := 0; q < 1+r.Intn(4); q++ {
+					in = append(in, one())
+				}
+				plan = append(plan, "~c("+strings.Join(in, ",")+")")
+			case 4:
+				plan = append(plan, []string{"~z(", "~N1(", "~N2(", "~N5("}[r.Intn(4)]+one()+")")
+			default:
+				plan = append(plan, "~"+one())
+			}
+		}
+		order := rsPerm(r, pend)
+		for _, c := range order {
+			plan = append(plan, fmt.Sprintf("a%d", c))
+		}
+		if pend > 0 {
+			plan = append(plan, "j")
+		}
+		reqs++
+		plan = append(plan, "g2", fmt.Sprintf("w%d", reqs))
+		if r.Bool() {
+			plan = append(plan, []string{"~F2", "~B2", "~r2/" + salt(), "~c(F2,u)", "~a2"}[r.Intn(5)])
+		}
+		plan = append(plan, []string{"a2", "c(p,a2)", "a2z"}[r.Intn(3)])
+		g.Emit("c16.run o,o,o "+strings.Join(plan, ";"), tag)
+	}
+}
+
+// c16GenLostWrites: the connection goes away in ways that are not the orderly half-close of step "close", and
+// writes of the client fail — then more traffic, and a probe that must complete on a connection made with the same
+// key (no plain-text frame from the client, event P).
+//
+//   - a write fails (injected through the write hook: an acknowledgement, a request of a caller) and the client goes
+//     on sending: the following acknowledgements, the next requests;
+//   - the server sends several content-related messages and drops the connection at once (plan step drop), before the
+//     client has acknowledged any of them (the receive loop is held for a moment through its yield point so that this
+//     is certain): the client still reads all of them and then the end of the stream, its acknowledgements go into a
+//     connection that is gone — the first write provokes the reset, the following ones fail —, it reconnects;
+//   - the stream ends in the middle of a frame (cut<n>:<item>: inside the length prefix, at its end, inside the
+//     packet) or with a reset (rst); the message that was cut is sent again on the new connection;
+//   - (long, each in a process of its own, concurrently with everything else, see c16EmitLong) a connection older than
+//     one keepalive period: the client's keepalive ping is answered with a bare pong as a conformant server does,
+//     then the server closes / the application reconnects; and a server that stays silent beyond the client's read
+//     timeout (65 s): whatever the client does about it, a request issued afterwards must complete.
+func c16GenLostWrites(g *G) {
+	r := g.R
+	tag := "lost-writes-and-broken-connections"
+	g.Emit("c16.run o,o fk:1;u;u;x;g1;w1;a1", tag)
+	g.Emit("c16.run o,o g0;w1;fk:2;c(u,u,a0);u;j;n77;g1;w2;a1", tag)
+	g.Emit("c16.run o,o,o fq:1;g0;j;u;g1;w1;a1;j;fq:1;fk:1;g2;j;u;g2;w2;a2", tag)
+	g.Emit("c16.run o,o yr*:20000:1;c(u,u,u);u;x;drop;g1;w1;a1", tag)
+	g.Emit("c16.run o,o g0;w1;a0;j;W;yr*:20000:1;u;u;u;u;u;u;drop;u;g1;w2;c(u,a1)", tag)
+	g.Emit("c16.run o,o,o g0;w1;yr*:20000:1;c(u,x,u,n77);drop;a0;j;yr*:20000:1;u;u;drop;g1+2;w3;a2;a1", tag)
+	g.Emit("c16.run o,o g0;w1;cut1:a0;a0;j;g1;w2;a1", tag)
+	g.Emit("c16.run o,o g0;w1;cut3:a0;a0;j;cut4:u;g1;w2;cut5:a1;a1", tag)
+	g.Emit("c16.run o,o g0;w1;cut30:a0;cut60:a0;a0;j;g1;w2;a1", tag)
+	g.Emit("c16.run o,o u;W;rst;g1;w1;a1", tag)
+	g.Emit("c16.run o,o g0;w1;a0;j;W;rst;u;W;rst;g1;w2;a1", tag)
+	n := g.N(10, 300)
+	for i := 0; i < n; i++ {
+		var plan []string
+		reqs := 0
+		if r.Bool() {
+			plan = append(plan, "g0", "w1", "a0", "j", "W")
+			reqs = 1
+		}
+		for j, m := 0, 1+r.Intn(3); j < m; j++ {
+			switch r.Intn(4) {
+			case 0: // injected write faults, then traffic that needs acknowledging
+				plan = append(plan, fmt.Sprintf("fk:%d", 1+r.Intn(3)))
+				for q := 0; q < 2+r.Intn(4); q++ {
+					plan = append(plan, []string{"u", "x", "n77", "c(u,u)", "q12345"}[r.Intn(5)])
+				}
+			case 1: // several content-related messages, then the connection is dropped with the acknowledgements unread
+				plan = append(plan, "W", "yr*:20000:1")
+				for q := 0; q < 2+r.Intn(6); q++ {
+					plan = append(plan, []string{"u", "x", "c(u,x,u)", "n77", "q12345", "z(u)"}[r.Intn(6)])
+				}
+				plan = append(plan, "drop")
+			case 2: // the stream ends inside a frame
+				plan = append(plan, fmt.Sprintf("cut%d:%s", []int{1, 2, 3, 4, 5, 12, 28, 29, 44, 60, 61}[r.Intn(11)], []string{"u", "x", "p", "c(u,p)", "n77"}[r.Intn(5)]))
+			default: // reset, with nothing unread on either side
+				plan = append(plan, "W", "rst")
+			}
+		}
+		reqs++
+		plan = append(plan, "g1", fmt.Sprintf("w%d", reqs))
+		if r.Intn(3) == 0 {
+			plan = append(plan, fmt.Sprintf("cut%d:a1", 1+r.Intn(50)))
+		}
+		plan = append(plan, []string{"a1", "c(u,a1)", "a1z"}[r.Intn(3)])
+		g.Emit("c16.run o,o "+strings.Join(plan, ";"), tag)
+	}
+	// the long ones: a connection that has lived for a keepalive period (one minute, a constant of the library)
+	c16EmitLong(g, "c16.run o,o g0;w1;a0;j;wk1;pk;s300000;close;g1;w2;a1", "connection-older-than-a-keepalive-period")
+	c16EmitLong(g, "c16.run o,o g0;w1;a0;j;u;wk1;pk;s200000;X;u;g1;w2;a1", "connection-older-than-a-keepalive-period")
+	// … and a server that says nothing for longer than the client's read timeout (the keepalive ping stays unanswered)
+	c16EmitLong(g, "c16.run o,o g0;w1;a0;j;wk1;s6500000;g1;w2;a1", "server-silent-beyond-the-read-timeout")
+	if g.Thorough() {
+		c16EmitLong(g, "c16.run o,o g0;w1;a0;j;wk1;pk;s100000;drop;u;g1;w2;a1", "connection-older-than-a-keepalive-period")
+		c16EmitLong(g, "c16.run o,o u;W;s66500000;u;g1;w1;a1", "server-silent-beyond-the-read-timeout")
+	}
+}
+
+// ---- scenarios that take longer than a minute ------------------------------------------------------------------
+//
+// They are ordinary c16.run operations. So that the quick tier does not take a minute per scenario, the generator
+// starts each of them at once in a process of its own (the same binary, the one operation as its -ops file — a
+// separate process because the yield and fault rules of the scenarios are process-wide); when the main loop reaches
+// the operation it takes the line that process has produced. Read from a file (corpus, replay) the operation simply
+// runs where it stands.
+
+type c16Child struct {
+	done chan struct{}
+	out  string
+}
+
+var c16Long = map[string]*c16Child{}
+
+func c16EmitLong(g *G, op string, tags ...string) {
+	g.Emit(op, tags...)
+	key := strings.Join(strings.Fields(op), " ")
+	if _, dup := c16Long[key]; dup {
+		return
+	}
+	ch := &c16Child{done: make(chan struct{})}
+	c16Long[key] = ch
+	go func() {
+		defer close(ch.done)
+		dir, err := os.MkdirTemp("", "vh-c16-long-")
+		if err != nil {
+			ch.out = "note=could-not-start-the-scenario's-process t=0-0 trace="
+			return
+		}
+		defer os.RemoveAll(dir)
+		opsf := filepath.Join(dir, "ops")
+		_ = os.WriteFile(opsf, []byte(op+"\n"), 0o644)
+		cmd := exec.Command(os.Args[0], "c16", "-dir", dir, "-ops", opsf)
+		msg, err := cmd.CombinedOutput()
+		b, rerr := os.ReadFile(filepath.Join(dir, "go.out"))
+		if line := strings.TrimSpace(string(b)); rerr == nil && line != "" {
+			ch.out = strings.SplitN(line, "\n", 2)[0]
+			return
+		}
+		// no result line: the process of the scenario died (a panic in the client's receive goroutine, a fatal error)
+		tail := strings.Join(strings.Fields(string(msg)), "_")
+		if len(tail) > 300 {
+			tail = tail[len(tail)-300:]
+		}
+		ch.out = fmt.Sprintf("note=the-client-process-died(%v):%s t=0-0 trace=", err, tail)
+	}()
+}
+
+func c16Exec(op []string) string {
+	if ch, ok := c16Long[strings.Join(op, " ")]; ok {
+		delete(c16Long, strings.Join(op, " "))
+		<-ch.done
+		return ch.out
+	}
+	return rsExec("c16")(op)
 }
 
 func init() {
-	register(&Prop{Name: "c16", Gen: c16Gen, Exec: rsExec("c16"), Judge: rsJudge("c16"), Teardown: rsTeardown})
+	register(&Prop{Name: "c16", Gen: c16Gen, Exec: c16Exec, Judge: rsJudge("c16"), Teardown: rsTeardown})
 }
